@@ -8,12 +8,12 @@ func init() {
 			f := c.Fn("ctl", n)
 			c.Dom("dom", f, c.Calls(f, "ctl.effect"), "effect", GErrChecked("check", c.Calls(f, "ctl.check")))
 		}
-	})
+	}, "badDomIgnored", "badDomArm", "badDomOrder")
 	addControl("CTL.cond", func(c *Ctx) {
 		for _, n := range []string{"goodCond", "badCond"} {
 			f := c.Fn("ctl", n)
 			c.Dom("cond", f, c.Calls(f, "ctl.effect"), "effect",
 				GCond("len(a)==len(b)", f, Cmp(Len(Param("a")), token.EQL, Len(Param("b")))))
 		}
-	})
+	}, "badCond")
 }
